@@ -66,6 +66,11 @@ func findClosestN(query fastaio.EncodedFastaRecord, catchmentSize int, maxdist f
 			distance = tn93Distance(query, target)
 		}
 
+		// an undefined distance (no jointly resolved site) ranks after every defined one
+		if math.IsNaN(distance) {
+			distance = math.Inf(1)
+		}
+
 		if maxdist != -1.0 {
 			if distance > maxdist {
 				continue
